@@ -61,7 +61,9 @@ func c10Wire(c c10Cmd, dir string, rng *rand.Rand) (wire string, payload string)
 		"negbefore": ":before=-1:max=1", "hugebefore": []string{":before=99999999999:max=1", ":before=4611686018427387904:after=1"}[rng.Intn(2)]}[c.Opts]
 	regex := map[string][]string{"default": {"regex:default", "line"}, "invert": {"regex:invert", "nomatch"}, "noop": {"regex:noop", ""},
 		"wrongprefix": {"foo", "bar"}, "uncompilable": {"regex:default", []string{"(", "[a", "a{2,1}", "\\"}[rng.Intn(4)]},
-		"noflag": {"regex:", "line"}, "bogusflag": {"regex:bogus,alsobogus", "line"}, "none": {}}[c.Regex]
+		"noflag": {"regex:", "line"}, "bogusflag": {"regex:bogus,alsobogus", "line"}, "none": {},
+		"flaglist_in": {"regex:invert,noop", "line 1"}, "flaglist_dn": {"regex:default,noop", "line"}, "flaglist_ni": {"regex:noop,invert", "line"},
+		"flaglist_bdn": {"regex:bogus,default,noop", "line"}}[c.Regex]
 	query := map[string]string{"valid": "select count($line) group by $hostname", "empty": "", "blank": " ", "lonebackquote": "select ` from x",
 		"unknownkeyword": "frobnicate the logs", "truncated": "select count($line) from", "badlogformat": "select count($line) logformat nosuchformat",
 		"unknownagg": "select median($x)",
